@@ -12,6 +12,8 @@
 //     names of the events the loop received.  The source's Watch is driven with
 //     a recording dials.WatchArgs, so reports are observed exactly.  The Coq
 //     side (Check/C17Check.v) replays the same history in the Gallina model.
+//     A case may apply its first one or two operations between the initial
+//     Source.Value() and Watch() (changes racing with start-up).
 //   - mode "r" (racing exploration): the same histories applied with pauses
 //     from {0, 50us, 2ms} and no waiting; afterwards only the property's own
 //     oracle is evaluated (converged to decode(final content), or last good
@@ -63,6 +65,7 @@ type input struct {
 	Mode    string `json:"mode"`    // q | r
 	Layout  int    `json:"layout"`  // 0 regular file, 1 k8s with ..data, 2 k8s with ..dir, 3 symlink into another directory
 	Backend string `json:"backend"` // args | dials
+	Early   int    `json:"early,omitempty"` // args backend: number of leading ops applied between the initial Value() and Watch()
 	Ops     []op   `json:"ops"`
 }
 
@@ -465,6 +468,17 @@ type runner struct {
 	dvals  []int
 	derrs  int
 	direct []string
+	r0     string // resolved config path when Watch() was called
+}
+
+func early(in input) int {
+	if in.Backend != "args" || in.Early <= 0 {
+		return 0
+	}
+	if in.Early > len(in.Ops) {
+		return len(in.Ops)
+	}
+	return in.Early
 }
 
 func setup(in input) *runner {
@@ -510,6 +524,7 @@ func setup(in input) *runner {
 				r.dmu.Unlock()
 			},
 		}
+		r.r0, _ = filepath.EvalSymlinks(w.cfg)
 		d, err := p.Config(ctx, &cfgT{A: -7}, ws)
 		must(err)
 		r.d = d
@@ -523,6 +538,19 @@ func setup(in input) *runner {
 		if valueOf(v) != 0 {
 			panic("initial value")
 		}
+		// changes racing with start-up: after dials.Config's initial Value(),
+		// before Watch() has set up any watch
+		for _, o := range in.Ops[:early(in)] {
+			if o.K != "reload" {
+				w.apply(o, func() {})
+			}
+		}
+		if w.shape == shMissing || w.shape == shDangling {
+			// Watch() refuses to start on a missing file; keep the case well formed
+			w.apply(op{K: "trunc", C: w.cur}, func() {})
+		}
+		r.r0, err = filepath.EvalSymlinks(w.cfg)
+		must(err)
 		must(ws.Watch(ctx, typ, r.args))
 	}
 	must(ws.VerifWatcher().Add(w.sent))
@@ -668,59 +696,66 @@ func runQuiescent(in input) driver.Result {
 	r := setup(in)
 	w := r.w
 	res := driver.Result{Kind: fmt.Sprintf("quiescent-layout%d", in.Layout)}
-	if !r.settle() {
-		res.Direct = append(res.Direct, "watch loop unresponsive after start")
+	if early(in) > 0 {
+		res.Kind += "-early"
 	}
-	r.takeEvents()
-	_, _, r0 := w.truth()
-	initWL := w.symList(r.ws.VerifWatchList())
 	var steps []string
 	kinds := map[string]bool{}
 	changes := 0
 	prevCid, prevExists := 0, true
-	for _, o := range in.Ops {
-		prevShape := w.shape
-		w.apply(o, func() {})
+	record := func(term string, o op, transient bool) bool {
 		if o.K == "reload" && !r.sendReload() {
 			res.Direct = append(res.Direct, "watch loop did not take an explicit reload within 15s")
-			break
+			return false
 		}
 		if !r.settle() {
 			res.Direct = append(res.Direct, "watch loop unresponsive (sentinel event never received)")
-			break
+			return false
 		}
 		evs := r.takeEvents()
 		exists, cid, resolved := w.truth()
 		ob := r.args.snapshot()
-		// an operation may let the loop read a transient state (empty file)
-		transient := o.K == "trunc" || (o.K == "rewrite" && !(prevShape == shRegular || prevShape == shK8s || prevShape == shLink))
-		var evTerms, goneTerms []string
+		var evTerms, goneTerms, deadTerms []string
 		for _, e := range evs {
 			evTerms = append(evTerms, w.sym(e))
 		}
 		for _, g := range w.gone {
 			goneTerms = append(goneTerms, w.sym(g))
 		}
-		var deadTerms []string
 		for _, x := range w.dead {
 			deadTerms = append(deadTerms, fmt.Sprint(x))
 		}
 		steps = append(steps, fmt.Sprintf("mkStep %s %s %s %d %s %s %s %s %s %d %d %s %s",
-			opTerm(o), coqRead(exists, cid), optPath(w, exists, resolved), w.ino, coqfmt.List(deadTerms), coqfmt.List(goneTerms),
+			term, coqRead(exists, cid), optPath(w, exists, resolved), w.ino, coqfmt.List(deadTerms), coqfmt.List(goneTerms),
 			coqfmt.Bool(transient), coqfmt.List(evTerms), w.symList(r.ws.VerifWatchList()),
 			ob.nvals, ob.nerrs, optN(ob.last), coqfmt.Bool(ob.lastErr)))
-		kinds[o.K] = true
 		if exists != prevExists || cid != prevCid {
 			changes++
 		}
 		prevCid, prevExists = cid, exists
+		return true
+	}
+	// the state once the loop has taken its first pass after Watch()
+	w.gone, w.dead = nil, nil
+	ino0 := w.ino
+	ok := record("OStart", op{K: "start"}, false)
+	for _, o := range in.Ops[early(in):] {
+		if !ok {
+			break
+		}
+		prevShape := w.shape
+		w.apply(o, func() {})
+		// an operation may let the loop read a transient state (empty file)
+		transient := o.K == "trunc" || (o.K == "rewrite" && !(prevShape == shRegular || prevShape == shK8s || prevShape == shLink))
+		ok = record(opTerm(o), o, transient)
+		kinds[o.K] = true
 		res.Tags = append(res.Tags, "q-op-"+o.K)
 	}
 	released, why := r.teardown()
 	if !released {
 		res.Direct = append(res.Direct, why)
 	}
-	res.Coq = fmt.Sprintf("Quiescent %s %s %s %s", w.sym(w.cfg), w.sym(r0), initWL, coqfmt.List(steps))
+	res.Coq = fmt.Sprintf("Quiescent %s %s %d %s", w.sym(w.cfg), w.sym(r.r0), ino0, coqfmt.List(steps))
 	res.Nontrivial = len(kinds) >= 3 && changes >= 2
 	return res
 }
@@ -732,10 +767,20 @@ func runRacing(in input) driver.Result {
 	valid := map[int]bool{0: true}
 	kinds := map[string]bool{}
 	changes := 0
-	for _, o := range in.Ops {
+	if early(in) > 0 {
+		res.Kind += "-early"
+	}
+	if w.cur < firstInvalid {
+		valid[w.cur] = true
+	}
+	var hist []string
+	for _, o := range in.Ops[early(in):] {
 		time.Sleep(pauses[o.P%len(pauses)])
 		before := w.cur
+		shapeBefore := w.shape
 		w.apply(o, func() { time.Sleep(pauses[o.P%len(pauses)]) })
+		// (operation, it removed only the symlink's target and left a dangling link)
+		hist = append(hist, fmt.Sprintf("(%s, %s)", opTerm(o), coqfmt.Bool(w.shape == shDangling && shapeBefore != shDangling)))
 		if o.K == "reload" {
 			r.sendReload()
 		}
@@ -762,7 +807,7 @@ func runRacing(in input) driver.Result {
 		if exists && cid < firstInvalid {
 			want = cid
 		}
-		deadline := time.Now().Add(20 * time.Second)
+		deadline := time.Now().Add(8 * time.Second)
 		for {
 			got := r.d.View().A
 			if want < 0 || got == want || time.Now().After(deadline) {
@@ -791,39 +836,23 @@ func runRacing(in input) driver.Result {
 	} else {
 		ob = r.args.snapshot()
 	}
-	// the property's own oracle
-	verdictOK := true
-	switch {
-	case exists && cid < firstInvalid:
-		if ob.last != cid {
-			verdictOK = false
-			fail("not converged: final content decodes to A=%d but the view stays at A=%d (all events handled)", cid, ob.last)
-		}
-	case exists:
-		if !valid[ob.last] {
-			verdictOK = false
-			fail("final content invalid and the view A=%d is not a good value of the history", ob.last)
-		}
-		if !ob.lastErr {
-			verdictOK = false
-			fail("final content invalid but no error was reported after the last good value")
-		}
-	default:
-		if !valid[ob.last] {
-			verdictOK = false
-			fail("file deleted and the view A=%d is not a good value of the history", ob.last)
-		}
+	// The property's own oracle.  Whether the view converged (to decode(final),
+	// or last good + error) is decided inside Coq from the term below, because a
+	// failure there may fall into a known-finding class that is a predicate on
+	// the history; everything else is a direct oracle.
+	viewGood := valid[ob.last]
+	if !viewGood {
+		fail("the view A=%d is not a good value of the history", ob.last)
 	}
 	if ob.dup {
-		verdictOK = false
 		fail("a new version was reported for content identical to the previous version")
 	}
 	released, why := r.teardown()
 	if !released {
 		fail("%s", why)
 	}
-	res.Coq = fmt.Sprintf("Racing %s %s %s %s %s", coqRead(exists, cid), optN(ob.last), coqfmt.Bool(ob.lastErr),
-		coqfmt.Bool(ob.dup), coqfmt.Bool(released && verdictOK))
+	res.Coq = fmt.Sprintf("Racing %s %s %s %s %s %s", coqfmt.List(hist), coqRead(exists, cid), optN(ob.last), coqfmt.Bool(ob.lastErr),
+		coqfmt.Bool(ob.dup), coqfmt.Bool(released && viewGood && settled))
 	res.Nontrivial = len(kinds) >= 3 && changes >= 2
 	return res
 }
@@ -893,9 +922,15 @@ func gen(r *coqfmt.Rng, n int, tier string) []json.RawMessage {
 		in := input{Layout: r.Intn(4), Ops: genOps(r, maxOps)}
 		if i%2 == 0 {
 			in.Mode, in.Backend = "q", "args"
+			if r.Chance(1, 4) {
+				in.Early = 1 + r.Intn(2)
+			}
 		} else {
 			in.Mode = "r"
 			in.Backend = coqfmt.Pick(r, []string{"args", "dials"})
+			if in.Backend == "args" && r.Chance(1, 4) {
+				in.Early = 1 + r.Intn(2)
+			}
 		}
 		b, _ := json.Marshal(in)
 		out = append(out, b)
@@ -921,6 +956,15 @@ func corpus() []json.RawMessage {
 		{K: "link", C: 3}, {K: "k8s", C: 4}}})
 	add(input{Mode: "q", Backend: "args", Layout: 3, Ops: []op{{K: "rewrite", C: 1}, {K: "delete", V: 1}, {K: "rewrite", C: 2}, {K: "rename", C: 3},
 		{K: "rename", C: 4}}})
+	// the read-before-watch window: switch into another directory, rewrite the new target at once
+	win := []op{{K: "rename", C: 5}, {K: "link", C: 101}, {K: "k8s", C: -1, V: 2, P: 1}, {K: "rewrite", C: 6, V: 2}}
+	for i := 0; i < 6; i++ {
+		add(input{Mode: "r", Backend: "args", Layout: 1, Ops: win})
+	}
+	// a change between the initial Value() and Watch()
+	add(input{Mode: "q", Backend: "args", Layout: 0, Early: 1, Ops: []op{{K: "rename", C: 3}, {K: "rewrite", C: 4}}})
+	add(input{Mode: "q", Backend: "args", Layout: 3, Early: 2, Ops: []op{{K: "rewrite", C: 3}, {K: "k8s", C: 4}, {K: "rename", C: 5}}})
+	add(input{Mode: "r", Backend: "args", Layout: 1, Early: 1, Ops: []op{{K: "k8s", C: 3}}})
 	return out
 }
 
